@@ -321,6 +321,7 @@ func runC13(c *core.Ctx, o Options) {
 	}
 	// ---- Z7a lock order
 	checkLockOrder(c, "Z7", fns)
+	c.RuleMin = map[string]int{"Z1": 5, "Z2": 16, "Z3": 5, "Z4": 6, "Z5": 4, "Z6": 4, "Z7": 4}
 	c.MinObl = 45
 }
 
